@@ -151,9 +151,9 @@ def main(run):
     def tree(e):
         return mp.tree(e)
 
-    def check_pair(fam, a, b):
+    def check_pair(fam, a, b, pre=None):
         ta, tb = tree(a), tree(b)
-        rab, rba = cmp_expr(a, b), cmp_expr(b, a)
+        rab, rba = pre if pre is not None else (cmp_expr(a, b), cmp_expr(b, a))
         run.count_case(("pair", ta, tb), nontrivial=ta != tb)
         hist[("pair", fam.rstrip("0123456789"))] = hist.get(("pair", fam.rstrip("0123456789")), 0) + 1
         pair_cases.append((ta, tb, rab, rba))
@@ -241,6 +241,10 @@ def main(run):
     # -- run everything on the real code
     maxtri = 60 if tier == "quick" else 800
     for fam, es in fams:
+        # all comparisons of the family first: Expr.__eq__ (used by the other oracles) makes equal nodes share
+        # their operand tuples, which would hide what cmp_expr does on separately built equal subtrees
+        pre = {(i, j): (cmp_expr(es[i], es[j]), cmp_expr(es[j], es[i]))
+               for i, j in itertools.combinations(range(len(es)), 2)}
         for a in es:
             a2 = clone(a)
             ta = tree(a)
@@ -252,8 +256,9 @@ def main(run):
             elif r1 != 0 or r2 != 0:
                 viol.append(("reflexivity", {"a": describe(a), "cmp_expr(a, equal copy of a)": r1,
                                              "expected": 0}))
-        for a, b in itertools.combinations(es, 2):
-            ta, tb, dist, al = check_pair(fam, a, b)
+        for i, j in itertools.combinations(range(len(es)), 2):
+            a, b = es[i], es[j]
+            ta, tb, dist, al = check_pair(fam, a, b, pre[i, j])
             check_ctor(a, b, ta, tb, dist, al)
         tri = list(itertools.combinations(range(len(es)), 3))
         if len(tri) > maxtri:
@@ -369,7 +374,10 @@ def main(run):
                             if x not in ("a", "b", "c", "expected", "violated", "failing_input")}
         data["reproduce"] = ("bin/check C29; or: from ufl.classes import *; from elements import *; import utils-free "
                              "eval() of failing_input (reprs are eval()-able with py/elements.py as `utils`), then "
-                             "evaluate the violated law (cmp_expr / a+b == b+a / a*b == b*a / inner)")
+                             "evaluate the violated law (cmp_expr / a+b == b+a / a*b == b*a / inner).  NB: the operands are DAGs - "
+                             "subexpressions that occur twice inside one operand are one shared object (py/C29_lib.py "
+                             "builds them: targeted(), crossed(), gen_family()); evaluate cmp_expr before any `==`, which "
+                             "makes equal nodes share operand tuples")
         if len(run.violations) < 8:
             run.violation(data, True)
     if gen_errors and not viol:
@@ -391,6 +399,8 @@ def main(run):
     elif cyc and kf is None:
         run.violation({"violated": "transitivity", "a": describe(wa), "b": describe(wb), "c": describe(wc),
                        "cmp_expr(a,b), cmp_expr(b,c), cmp_expr(c,a)": list(wres)}, True)
+    if mp.unknown_comparators:
+        run.extra["unknown_terminal_comparators_modelled_as_repr"] = sorted(mp.unknown_comparators)
     run.extra["comparator_variant"] = "repaired (_cmp_multi_index compares lengths)" if strict else "pinned"
     run.extra["known_class_instances"] = len(known_instances)
     run.extra["case_histogram"] = {"pairs": len(pair_cases), "triples_emitted": len(triple_cases),
